@@ -112,6 +112,12 @@ CHECKS = {
             "requires equality with serialize_json's output, (ii) evaluates Spec6.v on the resolved document for values aimed at the tree and requires the element's verdict "
             "to lie in the tolerated set, (iii) checks json.dumps, $ref resolution and the Draft-6 metaschema (jsonschema).  Findings K15, K21.",
             "partial (lemmas + refutations; meaning preservation by model recomputation and the Spec6 oracle evaluated in Coq)"),
+    "C06": ("Coq models of both directions (Parser.v, SerJson.v) tied by correspondence on every run; idempotence decided by the real pipeline materialize->parse->serialize three times + executed Python classes vs parsed classes; parser default-preservation theorem (C07) and serializer lemmas (C03) are the proved ingredients",
+            "PARTIAL proof.  norm(norm S) = norm S is not proved as a theorem: materialize (json_ref_dict) is third-party and the title de-duplication makes the "
+            "statement FALSE in general (finding K22, a 2-cycle of class names).  What is proved are the ingredients on each side: the parser keeps every default "
+            "(C07_parsed_default), the serializer emits exactly the explicit+property required names under JSON names (C03_*), keyword/signature tables agree with /repo.  "
+            "The run decides idempotence on the implementation (J1 == J2 == J3 type-strictly, executed classes == parsed classes) and checks the parser model on the same documents.",
+            "partial (ingredient theorems + pipeline oracle); K22 recorded"),
 }
 
 REASONS_PENDING = "check under construction in this session: not yet claimed"
